@@ -23,7 +23,7 @@ TEXT = {
          "known finding D9 (uninterpretable key_ops lift the restriction)", T, "7.16"),
  "C17": ("Lean theorems: a key with distinct in-range labels and scalar / list members survives its CBOR form (decoding succeeds; same kty, alg, dispatch triple, registered implementation per kind, key_ops, and octets of every byte-string member); the registry regenerated from register.go is exactly the 28 registrations of 24 algorithms without duplicates; dispatch depends only on (kty, alg, crv); defaults when alg is absent; nil / unregistered fail; "
          "accessors are insensitive to the Go integer kinds and slice types a decoder produces; the implementation obtained has the tag / nonce sizes of the key's algorithm; key-id look-up is exact. Correspondence on key.info / key.factory / impl.* / sig.*",
-         "JSON/text forms wrap the same CBOR bytes in hex; exercised through the CBOR path", T, "7.17"),
+         "JSON/text forms wrap the same CBOR bytes in hex (codec modelled in Go/ByteStr.lean with round-trip theorems and mirrored on malformed text); that keys use it is by correspondence", T, "7.17"),
  "C01": ("Lean theorems: for all six kinds MarshalCBOR's output is decoded back to the same wire array (tag/prefix stripping proved), and UnmarshalCBOR answers the same on the bare array, the tagged array and the CWT-tagged one for every well-formed wire array (C01Forms: unmarshal_form_independent), so each round trip below holds in all three forms; protected, payload/ciphertext and signature/tag come back byte for byte; "
          "a COSE_Sign1 / COSE_Mac0 produced with default headers verifies under any verifier correct for the signer and yields the original payload, for every payload, external data, key and every unprotected map "
          "with scalar / list values in whatever order Go presents its entries (the decoded unprotected map answers every look-up with the decoded form of the original value); "
